@@ -1,9 +1,494 @@
-From Coq Require Import ZArith List Reals Lra Lia Bool.
-From SV Require Import Base.Num Base.Outcome Model.Poly Model.Solvers.
+(* Proofs/Newton.v — lemmas about Model/Solvers.v (Newton-Raphson). *)
+From Coq Require Import ZArith List Reals Lra Lia Bool Arith Psatz.
+From Coquelicot Require Import Coquelicot.
+From SV Require Import Base.Num Base.Outcome Model.Poly Model.Solvers Proofs.Bisect.
 Import ListNotations.
 Local Open Scope R_scope.
 
-Lemma c07_tmp : forall (f f' : R -> res R) x0 tol x, nrm f f' x0 0 tol <> Ok x.
+(* ------------------------------------------------------------------------- *)
+(* generic facts (every Num instance)                                         *)
+(* ------------------------------------------------------------------------- *)
+Section Generic.
+  Context {T : Type} {NT : Num T}.
+  Variables (f f' : T -> res T) (tol : T) (cap : nat).
+
+  Definition nr_err1 (s : nstate T) (x : T) : T :=
+    if nneb x n0 then nmul (ndiv (nabs (nsub x (ns_x s))) x) c100 else ns_err s.
+
+  Lemma nr_body_ok s s' b : nr_body f f' tol cap s = Ok (s', b) ->
+    exists v d, f (ns_x s) = Ok v /\ f' (ns_x s) = Ok d /\
+      ns_x s' = nsub (ns_x s) (ndiv v d) /\ ns_old s' = ns_x s /\ ns_iter s' = S (ns_iter s) /\
+      b = (nltb (nabs (ns_err s')) tol || Nat.leb cap (S (ns_iter s))) /\
+      ( (nfinite (ns_x s') = true /\ exists vx, f (ns_x s') = Ok vx /\
+           ns_err s' = if neqb vx n0 then n0 else nr_err1 s (ns_x s'))
+     \/ (nfinite (ns_x s') = false /\ ns_err s' = nr_err1 s (ns_x s')) ).
+  Proof.
+    unfold nr_body.
+    destruct (f (ns_x s)) as [v|e|w]; cbn [bind]; try discriminate.
+    destruct (f' (ns_x s)) as [d|e|w]; cbn [bind]; try discriminate.
+    set (x := nsub (ns_x s) (ndiv v d)).
+    fold (nr_err1 s x).
+    destruct (nfinite x) eqn:Ef.
+    - destruct (f x) as [vx|e|w] eqn:Ex; cbn [bind]; try discriminate.
+      intro H. injection H as <- <-. exists v, d. cbn [ns_x ns_old ns_iter ns_err].
+      repeat (split; [reflexivity|]). left. split; [exact Ef|]. exists vx. split; [exact Ex|reflexivity].
+    - cbn [bind]. intro H. injection H as <- <-. exists v, d. cbn [ns_x ns_old ns_iter ns_err].
+      repeat (split; [reflexivity|]). right. split; [exact Ef|reflexivity].
+  Qed.
+
+  Lemma nr_body_no_panic s : (forall x, no_panic (f x)) -> (forall x, no_panic (f' x)) ->
+    no_panic (nr_body f f' tol cap s).
+  Proof.
+    intros Hf Hf' w. unfold nr_body.
+    destruct (f (ns_x s)) as [v|e|w'] eqn:E1; cbn [bind]; try discriminate.
+    2:{ intros _. exact (Hf _ w' E1). }
+    destruct (f' (ns_x s)) as [d|e|w'] eqn:E2; cbn [bind]; try discriminate.
+    2:{ intros _. exact (Hf' _ w' E2). }
+    destruct (nfinite _); cbn [bind]; [|discriminate].
+    destruct (f (nsub (ns_x s) (ndiv v d))) as [vx|e|w'] eqn:E3; cbn [bind]; try discriminate.
+    intros _. exact (Hf _ w' E3).
+  Qed.
+
+  Lemma nr_body_err s e : nr_body f f' tol cap s = Err e -> (exists x, f x = Err e) \/ (exists x, f' x = Err e).
+  Proof.
+    unfold nr_body.
+    destruct (f (ns_x s)) as [v|e1|w'] eqn:E1; cbn [bind]; try discriminate.
+    2:{ intro H. injection H as <-. left. eauto. }
+    destruct (f' (ns_x s)) as [d|e1|w'] eqn:E2; cbn [bind]; try discriminate.
+    2:{ intro H. injection H as <-. right. eauto. }
+    destruct (nfinite _); cbn [bind]; [|discriminate].
+    destruct (f (nsub (ns_x s) (ndiv v d))) as [vx|e1|w'] eqn:E3; cbn [bind]; try discriminate.
+    intro H. injection H as <-. left. eauto.
+  Qed.
+
+  Lemma nr_loop_last (I : nstate T -> Prop) :
+    (forall s s', I s -> nr_body f f' tol cap s = Ok (s', false) -> I s') ->
+    forall fuel s r, I s -> nr_loop f f' tol cap fuel s = Ok r ->
+    exists s0, I s0 /\ nr_body f f' tol cap s0 = Ok (r, true).
+  Proof.
+    intros Hstep. induction fuel as [|k IH]; intros s r Hs; cbn [nr_loop];
+      destruct (nr_body f f' tol cap s) as [[s' brk]|e|w] eqn:Eb; try discriminate; destruct brk.
+    - intro H. injection H as <-. exists s. split; assumption.
+    - discriminate.
+    - intro H. injection H as <-. exists s. split; assumption.
+    - intro H. apply (IH s' r); [|exact H]. apply (Hstep s s'); assumption.
+  Qed.
+
+  Lemma nr_loop_no_panic : (forall x, no_panic (f x)) -> (forall x, no_panic (f' x)) ->
+    forall fuel s, (cap <= ns_iter s + fuel)%nat -> no_panic (nr_loop f f' tol cap fuel s).
+  Proof.
+    intros Hf Hf'. induction fuel as [|k IH]; intros s Hc w; cbn [nr_loop];
+      destruct (nr_body f f' tol cap s) as [[s' brk]|e|w'] eqn:Eb; try discriminate.
+    - destruct brk; [discriminate|]. exfalso.
+      apply nr_body_ok in Eb. destruct Eb as (v & d & _ & _ & _ & _ & _ & Hb & _).
+      symmetry in Hb. apply orb_false_elim in Hb. destruct Hb as [_ Hb].
+      apply Nat.leb_gt in Hb. lia.
+    - intros _. exact (nr_body_no_panic s Hf Hf' w' Eb).
+    - destruct brk; [discriminate|].
+      apply nr_body_ok in Eb. destruct Eb as (v & d & _ & _ & _ & _ & Hi & Hb & _).
+      symmetry in Hb. apply orb_false_elim in Hb. destruct Hb as [_ Hb].
+      apply Nat.leb_gt in Hb. apply IH. lia.
+    - intros _. exact (nr_body_no_panic s Hf Hf' w' Eb).
+  Qed.
+
+  Lemma nr_loop_err fuel : forall s e, nr_loop f f' tol cap fuel s = Err e ->
+    (exists x, f x = Err e) \/ (exists x, f' x = Err e).
+  Proof.
+    induction fuel as [|k IH]; intros s e; cbn [nr_loop];
+      destruct (nr_body f f' tol cap s) as [[s' brk]|e1|w'] eqn:Eb; try discriminate.
+    - destruct brk; discriminate.
+    - intro H. injection H as <-. exact (nr_body_err s e1 Eb).
+    - destruct brk; [discriminate|]. apply IH.
+    - intro H. injection H as <-. exact (nr_body_err s e1 Eb).
+  Qed.
+
+  (* the loop counter: every body adds one; at the exit it is at most max cap 1 *)
+  Lemma nr_loop_iter_le fuel : forall s r,
+    (ns_iter s < cap \/ ns_iter s = 0)%nat -> nr_loop f f' tol cap fuel s = Ok r ->
+    (ns_iter s < ns_iter r <= Nat.max cap 1)%nat.
+  Proof.
+    induction fuel as [|k IH]; intros s r Hs; cbn [nr_loop];
+      destruct (nr_body f f' tol cap s) as [[s' brk]|e|w'] eqn:Eb; try discriminate;
+      apply nr_body_ok in Eb; destruct Eb as (v & d & _ & _ & _ & _ & Hi & Hb & _); destruct brk; try discriminate.
+    - intro H. injection H as <-. lia.
+    - intro H. injection H as <-. lia.
+    - symmetry in Hb. apply orb_false_elim in Hb. destruct Hb as [_ Hb]. apply Nat.leb_gt in Hb.
+      intro H. apply IH in H; lia.
+  Qed.
+End Generic.
+
+Lemma c07_total : forall (T : Type) (NT : Num T) (f f' : T -> res T) (x0 : T) (cap : nat) (tol : T),
+  (forall x, no_panic (f x)) -> (forall x, no_panic (f' x)) ->
+  no_panic (nrm f f' x0 cap tol) /\
+  no_panic (nr_loop f f' tol cap cap (nr_start x0)) /\
+  (forall r, nr_loop f f' tol cap cap (nr_start x0) = Ok r -> (1 <= ns_iter r <= Nat.max cap 1)%nat) /\
+  (forall e, nrm f f' x0 cap tol = Err e ->
+     e = EMaxIterationsReached \/ (exists x, f x = Err e) \/ (exists x, f' x = Err e)).
 Proof.
-  intros. unfold nrm. destruct (nr_loop _ _ _ _ _ _); cbn; congruence.
+  intros T NT f f' x0 cap tol Hf Hf'.
+  assert (Hl : no_panic (nr_loop f f' tol cap cap (nr_start x0))).
+  { apply nr_loop_no_panic; try assumption. cbn. lia. }
+  split; [|split; [exact Hl|split]].
+  - unfold nrm. apply bind_no_panic; [exact Hl|].
+    intros s _. destruct (Nat.leb cap (ns_iter s)); discriminate.
+  - intros r H. apply nr_loop_iter_le in H; cbn in *; lia.
+  - intros e. unfold nrm.
+    destruct (nr_loop f f' tol cap cap (nr_start x0)) as [s|e1|w] eqn:El; cbn [bind]; try discriminate.
+    + destruct (Nat.leb cap (ns_iter s)); [|discriminate]. intro H. injection H as <-. left. reflexivity.
+    + intro H. injection H as <-. right. exact (nr_loop_err f f' tol cap cap _ _ El).
+Qed.
+
+Lemma nrm_poly_no_panic {T} {NT : Num T} {P} (evalu : P -> T -> res T) (deriv : P -> res P) p x0 cap tol mode :
+  (forall q x, no_panic (evalu q x)) -> (forall q, no_panic (deriv q)) ->
+  no_panic (nrm_poly evalu deriv p x0 cap tol mode).
+Proof.
+  intros He Hd. unfold nrm_poly. apply bind_no_panic.
+  - unfold target. destruct mode; [apply Hd|discriminate].
+  - intros q _. apply bind_no_panic; [apply Hd|]. intros dq _.
+    apply (c07_total T NT (evalu q) (evalu dq) x0 cap tol); intro x; apply He.
+Qed.
+
+Lemma c07_total_poly : forall (T : Type) (NT : Num T) (x0 : T) (cap : nat) (tol : T) (mode : bool),
+  (forall p : spoly T, no_panic (s_nrm p x0 cap tol mode)) /\
+  (forall p : ipoly T, no_panic (i_nrm p x0 cap tol mode)).
+Proof.
+  intros. split; intro p; apply nrm_poly_no_panic.
+  - intros q x. discriminate.
+  - intros q. discriminate.
+  - intros q x. apply i_eval_no_panic.
+  - intros q. apply i_deriv_no_panic.
+Qed.
+
+(* ------------------------------------------------------------------------- *)
+(* the R instance: what the exit test gives                                   *)
+(* ------------------------------------------------------------------------- *)
+Lemma nfinite_R (x : R) : nfinite x = true.
+Proof. unfold nfinite. cbn [neqb nsub n0 RNum]. apply Reqb_true. ring. Qed.
+
+Lemma nr_body_R (f f' : R -> res R) tol cap s s' b : nr_body f f' tol cap s = Ok (s', b) ->
+  exists v d vx, f (ns_x s) = Ok v /\ f' (ns_x s) = Ok d /\ f (ns_x s') = Ok vx /\
+    ns_x s' = ns_x s - v / d /\ ns_old s' = ns_x s /\ ns_iter s' = S (ns_iter s) /\
+    b = (Rltb (Rabs (ns_err s')) tol || Nat.leb cap (S (ns_iter s))) /\
+    ( (vx = 0 /\ ns_err s' = 0)
+   \/ (vx <> 0 /\ ns_x s' <> 0 /\ ns_err s' = Rabs (ns_x s' - ns_x s) / ns_x s' * 100)
+   \/ (vx <> 0 /\ ns_x s' = 0 /\ ns_err s' = ns_err s) ).
+Proof.
+  intro H. apply nr_body_ok in H.
+  destruct H as (v & d & Hv & Hd & Hx & Ho & Hi & Hb & [(_ & vx & Hvx & He)|(Hf & _)]).
+  2:{ rewrite nfinite_R in Hf. discriminate. }
+  exists v, d, vx. repeat (split; [assumption|]).
+  cbn [neqb n0 RNum] in He. unfold nr_err1, nneb in He. cbn [neqb nmul ndiv nabs nsub n0 RNum] in He.
+  rewrite c100_R in He.
+  destruct (Reqb vx 0) eqn:E0.
+  - apply Reqb_true in E0. left. tauto.
+  - apply Reqb_false in E0. right.
+    destruct (Reqb (ns_x s') 0) eqn:E1; cbn [negb] in He.
+    + apply Reqb_true in E1. right. tauto.
+    + apply Reqb_false in E1. left. tauto.
+Qed.
+
+(* loop-head invariant: the carried error is not below the tolerance *)
+Definition Jerr (tol : R) (s : nstate R) : Prop := tol <= Rabs (ns_err s).
+
+Lemma Jerr_step (f f' : R -> res R) tol cap s s' :
+  nr_body f f' tol cap s = Ok (s', false) -> Jerr tol s'.
+Proof.
+  intro H. apply nr_body_R in H. destruct H as (v & d & vx & _ & _ & _ & _ & _ & _ & Hb & _).
+  symmetry in Hb. apply orb_false_elim in Hb. destruct Hb as [Hb _].
+  apply Rltb_false in Hb. exact Hb.
+Qed.
+
+Lemma c07_sound : forall (f f' : R -> res R) x0 cap tol x,
+  tol <= 100 -> nrm f f' x0 cap tol = Ok x ->
+  exists x' v d, f x' = Ok v /\ f' x' = Ok d /\ x = x' - v / d /\
+    (f x = Ok 0 \/ (x <> 0 /\ Rabs (x - x') * 100 < tol * Rabs x)).
+Proof.
+  intros f f' x0 cap tol x Htol. unfold nrm.
+  destruct (nr_loop f f' tol cap cap (nr_start x0)) as [r|e|w] eqn:El; cbn [bind]; try discriminate.
+  destruct (Nat.leb cap (ns_iter r)) eqn:Ec; [discriminate|].
+  intro H. injection H as <-.
+  destruct (nr_loop_last f f' tol cap (Jerr tol)) with (fuel := cap) (s := nr_start x0) (r := r) as (s0 & J0 & Hb).
+  - intros s s' _ Hb. exact (Jerr_step f f' tol cap s s' Hb).
+  - unfold Jerr, nr_start. cbn [ns_err]. rewrite c100_R. rewrite Rabs_pos_eq; lra.
+  - exact El.
+  - apply nr_body_R in Hb. destruct Hb as (v & d & vx & Hv & Hd & Hvx & Hx & _ & Hi & Hb & Hcase).
+    exists (ns_x s0), v, d. repeat (split; [assumption|]).
+    rewrite <- Hi, Ec, orb_false_r in Hb. symmetry in Hb. apply Rltb_true in Hb.
+    destruct Hcase as [(Z & _)|[(_ & Nz & He)|(_ & _ & He)]].
+    + left. rewrite Hvx, Z. reflexivity.
+    + right. split; [exact Nz|]. rewrite He in Hb.
+      assert (Hp : 0 < Rabs (ns_x r)) by (apply Rabs_pos_lt; exact Nz).
+      unfold Rdiv in Hb. rewrite !Rabs_mult, Rabs_Rabsolu, Rabs_inv in Hb.
+      rewrite (Rabs_pos_eq 100) in Hb by lra.
+      apply (Rmult_lt_compat_r (Rabs (ns_x r))) in Hb; [|exact Hp].
+      replace (Rabs (ns_x r - ns_x s0) * / Rabs (ns_x r) * 100 * Rabs (ns_x r))
+        with (Rabs (ns_x r - ns_x s0) * 100) in Hb by (field; lra).
+      exact Hb.
+    + exfalso. rewrite He in Hb. unfold Jerr in J0. lra.
+Qed.
+
+(* ------------------------------------------------------------------------- *)
+(* Taylor-Lagrange of order 2, both directions                                *)
+(* ------------------------------------------------------------------------- *)
+Lemma taylor2 (g g1 g2 : R -> R) :
+  (forall t, is_derive g t (g1 t)) -> (forall t, is_derive g1 t (g2 t)) ->
+  forall a b, exists xi, Rmin a b <= xi <= Rmax a b /\
+    g b = g a + g1 a * (b - a) + g2 xi / 2 * (b - a) ^ 2.
+Proof.
+  intros Hg Hg1 a b.
+  destruct (Req_dec a b) as [E|N].
+  { subst b. exists a. rewrite Rmin_left, Rmax_left by lra. split; [lra|ring]. }
+  set (K := (g b - g a - g1 a * (b - a)) / (b - a) ^ 2).
+  set (phi := fun t => g t + g1 t * (b - t) + K * (b - t) ^ 2).
+  set (dphi := fun t => (b - t) * (g2 t - 2 * K)).
+  assert (Hphi : forall c, derivable_pt_lim phi c (dphi c)).
+  { intro c. apply is_derive_Reals. unfold phi, dphi.
+    auto_derive.
+    - repeat split; try exact I; eexists; [apply Hg|apply Hg1].
+    - replace (Derive (fun x : R => g x) c) with (g1 c) by (symmetry; apply is_derive_unique; apply Hg).
+      replace (Derive (fun x : R => g1 x) c) with (g2 c) by (symmetry; apply is_derive_unique; apply Hg1).
+      ring. }
+  assert (Hba : phi b = g b) by (unfold phi; ring).
+  assert (Haa : phi a = g b).
+  { unfold phi, K. field. intro Hz. apply N. nra. }
+  assert (Hkey : forall c, c <> b -> dphi c * (b - a) = 0 -> g2 c = 2 * K).
+  { intros c Hc H0. unfold dphi in H0.
+    assert (Hne : b - a <> 0) by lra. assert (Hne2 : b - c <> 0) by lra.
+    apply Rmult_integral in H0. destruct H0 as [H0|H0]; [|contradiction].
+    apply Rmult_integral in H0. destruct H0 as [H0|H0]; [contradiction|]. lra. }
+  assert (Hfin : forall c, g2 c = 2 * K -> g b = g a + g1 a * (b - a) + g2 c / 2 * (b - a) ^ 2).
+  { intros c Hc. rewrite Hc. unfold K. field. intro Hz. apply N. nra. }
+  destruct (Rlt_le_dec a b) as [Hlt|Hge].
+  - destruct (MVT_cor2 phi dphi a b Hlt (fun c _ => Hphi c)) as (c & Hc & Hin).
+    exists c. rewrite Rmin_left, Rmax_right by lra. split; [lra|].
+    apply Hfin. apply Hkey; [lra|]. rewrite <- Hc, Hba, Haa. ring.
+  - assert (Hlt : b < a) by lra.
+    destruct (MVT_cor2 phi dphi b a Hlt (fun c _ => Hphi c)) as (c & Hc & Hin).
+    exists c. rewrite Rmin_right, Rmax_left by lra. split; [lra|].
+    apply Hfin. apply Hkey; [lra|].
+    replace (dphi c * (b - a)) with (- (dphi c * (a - b))) by ring.
+    rewrite <- Hc, Hba, Haa. ring.
+Qed.
+
+(* ------------------------------------------------------------------------- *)
+(* SimplePolynomial targets: the second-order residual bound                  *)
+(* ------------------------------------------------------------------------- *)
+Definition sd (p : spoly R) : spoly R := simple_derivative p.
+
+Lemma nrm_poly_inv {P} (evalu : P -> R -> res R) (deriv : P -> res P) p x0 cap tol mode x :
+  nrm_poly evalu deriv p x0 cap tol mode = Ok x ->
+  exists q dq, target deriv p mode = Ok q /\ deriv q = Ok dq /\ nrm (evalu q) (evalu dq) x0 cap tol = Ok x.
+Proof.
+  unfold nrm_poly.
+  destruct (target deriv p mode) as [q|e|w]; cbn [bind]; try discriminate.
+  destruct (deriv q) as [dq|e|w] eqn:Ed; cbn [bind]; try discriminate.
+  intro H. exists q, dq. repeat split; [exact Ed|exact H].
+Qed.
+
+Lemma c07_sound_simple : forall (p : spoly R) x0 cap tol mode x,
+  tol <= 100 -> s_nrm p x0 cap tol mode = Ok x ->
+  let g := eval_simple (s_target p mode) in
+  let g1 := eval_simple (sd (s_target p mode)) in
+  let g2 := eval_simple (sd (sd (s_target p mode))) in
+  exists x', x = x' - g x' / g1 x' /\
+    (g x = 0 \/ (x <> 0 /\ Rabs (x - x') * 100 < tol * Rabs x)) /\
+    (g1 x' <> 0 ->
+       (exists xi, Rmin x' x <= xi <= Rmax x' x /\ g x = g2 xi / 2 * (x - x') ^ 2) /\
+       (forall M, (forall t, Rmin x' x <= t <= Rmax x' x -> Rabs (g2 t) <= M) ->
+          g x = 0 \/ Rabs (g x) <= M / 2 * (tol / 100 * Rabs x) ^ 2)).
+Proof.
+  intros p x0 cap tol mode x Htol H g g1 g2.
+  apply nrm_poly_inv in H. destruct H as (q & dq & Hq & Hdq & H).
+  assert (Eq : q = s_target p mode).
+  { destruct mode; cbn [target s_derivate_univariate s_target] in *; injection Hq as <-; reflexivity. }
+  subst q. unfold s_derivate_univariate in Hdq. injection Hdq as <-.
+  apply c07_sound in H; [|exact Htol].
+  destruct H as (x' & v & d & Hv & Hd & Hx & Hex).
+  unfold s_eval_univariate in Hv, Hd. injection Hv as <-. injection Hd as <-.
+  fold g in Hx, Hex. fold (sd (s_target p mode)) in Hx. fold g1 in Hx.
+  exists x'. split; [exact Hx|].
+  assert (Hex' : g x = 0 \/ x <> 0 /\ Rabs (x - x') * 100 < tol * Rabs x).
+  { destruct Hex as [Z|S]; [left|right; exact S].
+    unfold s_eval_univariate in Z. injection Z as Z. exact Z. }
+  split; [exact Hex'|].
+  intro Hne.
+  destruct (taylor2 g g1 g2) with (a := x') (b := x) as (xi & Hxi & Ht).
+  { intro t. apply eval_simple_is_derive. }
+  { intro t. apply eval_simple_is_derive. }
+  assert (Hres : g x = g2 xi / 2 * (x - x') ^ 2).
+  { rewrite Ht. replace (x - x') with (- (g x' / g1 x')) by lra. field. exact Hne. }
+  split; [exists xi; split; assumption|].
+  intros M HM. destruct Hex' as [Z|(Nz & Hs)]; [left; exact Z|right].
+  rewrite Hres. pose proof (HM xi Hxi) as Hb.
+  assert (H0 : 0 <= Rabs (g2 xi)) by apply Rabs_pos.
+  unfold Rdiv. rewrite !Rabs_mult. rewrite (Rabs_pos_eq (/ 2)) by lra.
+  rewrite <- RPow_abs.
+  assert (Hd : Rabs (x - x') <= tol / 100 * Rabs x) by lra.
+  assert (Hd0 : 0 <= Rabs (x - x')) by apply Rabs_pos.
+  assert (Hsq : Rabs (x - x') ^ 2 <= (tol / 100 * Rabs x) ^ 2) by (apply pow_incr; lra).
+  assert (Hsq0 : 0 <= Rabs (x - x') ^ 2) by (apply pow_le; lra).
+  nra.
+Qed.
+
+(* ------------------------------------------------------------------------- *)
+(* a root that is hit exactly is returned                                     *)
+(* ------------------------------------------------------------------------- *)
+Fixpoint newton_from (f f' : R -> res R) (x : R) (k : nat) : res R :=
+  match k with
+  | O => Ok x
+  | S k' => bind (f x) (fun v => bind (f' x) (fun d => newton_from f f' (x - v / d) k'))
+  end.
+
+Lemma nr_loop_reaches (f f' : R -> res R) tol cap : 0 < tol ->
+  forall m s fuel xk, (1 <= m)%nat ->
+    newton_from f f' (ns_x s) m = Ok xk -> f xk = Ok 0 ->
+    (ns_iter s + m < cap)%nat -> (cap <= ns_iter s + fuel)%nat ->
+    exists j xj r, (1 <= j <= m)%nat /\ newton_from f f' (ns_x s) j = Ok xj /\
+      nr_loop f f' tol cap fuel s = Ok r /\ ns_x r = xj /\ ns_iter r = (ns_iter s + j)%nat.
+Proof.
+  intros Htol. induction m as [|m IH]; intros s fuel xk Hm Hn Hroot Hcap Hfuel; [lia|].
+  cbn [newton_from] in Hn.
+  destruct (f (ns_x s)) as [v|e|w] eqn:Ev; cbn [bind] in Hn; try discriminate.
+  destruct (f' (ns_x s)) as [d|e|w] eqn:Ed; cbn [bind] in Hn; try discriminate.
+  set (x1 := ns_x s - v / d) in *.
+  (* the value of f at the new iterate is defined *)
+  assert (Hfx1 : exists vx, f x1 = Ok vx).
+  { destruct m as [|m'].
+    - cbn [newton_from] in Hn. injection Hn as <-. eauto.
+    - cbn [newton_from] in Hn. destruct (f x1) as [vx|e|w]; cbn [bind] in Hn; try discriminate. eauto. }
+  destruct Hfx1 as (vx & Hvx).
+  (* run the body *)
+  assert (Hbody : exists s' b, nr_body f f' tol cap s = Ok (s', b) /\ ns_x s' = x1 /\ ns_iter s' = S (ns_iter s) /\
+                    (vx = 0 -> b = true)).
+  { unfold nr_body. rewrite Ev, Ed. cbn [bind]. change (nsub (ns_x s) (ndiv v d)) with x1.
+    rewrite nfinite_R, Hvx. cbn [bind]. eexists. eexists. split; [reflexivity|].
+    cbn [ns_x ns_iter ns_err]. repeat split.
+    intro Z. subst vx. cbn [neqb n0 nltb nabs RNum].
+    replace (Reqb 0 0) with true by (symmetry; apply Reqb_true; reflexivity).
+    rewrite Rabs_R0. replace (Rltb 0 tol) with true by (symmetry; apply Rltb_true; exact Htol).
+    reflexivity. }
+  destruct Hbody as (s' & b & Hb & Hx' & Hi' & Hz).
+  destruct b.
+  - (* the loop leaves here: j = 1 *)
+    exists 1%nat, x1, s'. split; [lia|]. split.
+    { cbn [newton_from]. rewrite Ev, Ed. reflexivity. }
+    split; [|split; [exact Hx'|lia]].
+    destruct fuel; cbn [nr_loop]; rewrite Hb; reflexivity.
+  - (* it goes on: at least one more step is available *)
+    destruct m as [|m'].
+    { exfalso. cbn [newton_from] in Hn. injection Hn as Hn. subst xk.
+      rewrite Hvx in Hroot. injection Hroot as Hroot. specialize (Hz Hroot). discriminate. }
+    destruct fuel as [|fuel']; [lia|].
+    destruct (IH s' fuel' xk) as (j & xj & r & Hj & Hnj & Hl & Hxr & Hir); try lia.
+    { rewrite Hx'. exact Hn. }
+    { exact Hroot. }
+    exists (S j), xj, r. split; [lia|]. split.
+    { cbn [newton_from]. rewrite Ev, Ed. cbn [bind]. fold x1. rewrite <- Hx'. exact Hnj. }
+    split; [|split; [exact Hxr|lia]].
+    cbn [nr_loop]. rewrite Hb. exact Hl.
+Qed.
+
+Lemma c07_zero_root : forall (f f' : R -> res R) x0 cap tol k xk,
+  0 < tol -> (1 <= k < cap)%nat ->
+  newton_from f f' x0 k = Ok xk -> f xk = Ok 0 ->
+  exists j xj, (1 <= j <= k)%nat /\ newton_from f f' x0 j = Ok xj /\ nrm f f' x0 cap tol = Ok xj.
+Proof.
+  intros f f' x0 cap tol k xk Htol Hk Hn Hroot.
+  destruct (nr_loop_reaches f f' tol cap Htol k (nr_start x0) cap xk) as (j & xj & r & Hj & Hnj & Hl & Hx & Hi);
+    cbn [nr_start ns_x ns_iter]; try lia; try assumption.
+  exists j, xj. split; [exact Hj|]. split; [exact Hnj|].
+  unfold nrm. rewrite Hl. cbn [bind].
+  replace (Nat.leb cap (ns_iter r)) with false.
+  - rewrite Hx. reflexivity.
+  - symmetry. apply Nat.leb_gt. cbn [nr_start ns_iter] in Hi. lia.
+Qed.
+
+(* ------------------------------------------------------------------------- *)
+(* one-step monotonicity to the right of the largest root                     *)
+(* ------------------------------------------------------------------------- *)
+Lemma newton_step_monotone (g g1 g2 : R -> R) r x :
+  (forall t, is_derive g t (g1 t)) -> (forall t, is_derive g1 t (g2 t)) ->
+  g r = 0 -> (forall t, r < t -> 0 < g t /\ 0 < g1 t) -> (forall t, r <= t -> 0 <= g2 t) ->
+  r < x -> r <= x - g x / g1 x < x.
+Proof.
+  intros Hg Hg1 Hr Hpos Hconv Hx.
+  destruct (Hpos x Hx) as [Gx G1x].
+  assert (Hq : 0 < g x / g1 x) by (apply Rdiv_lt_0_compat; assumption).
+  split; [|lra].
+  destruct (taylor2 g g1 g2 Hg Hg1 x r) as (xi & Hxi & Ht).
+  rewrite Rmin_right, Rmax_left in Hxi by lra.
+  assert (H2 : 0 <= g2 xi) by (apply Hconv; lra).
+  rewrite Hr in Ht.
+  assert (Hsq : 0 <= (r - x) ^ 2) by apply pow2_ge_0.
+  assert (Hle : g x + g1 x * (r - x) <= 0) by nra.
+  (* divide by g1 x > 0 *)
+  assert (Hd : g x / g1 x + (r - x) <= 0).
+  { apply (Rmult_le_reg_l (g1 x)); [exact G1x|].
+    replace (g1 x * (g x / g1 x + (r - x))) with (g x + g1 x * (r - x)) by (field; lra). lra. }
+  lra.
+Qed.
+
+(* PARTIAL (convergence half of C07).  Proved: to the right of a root r beyond which the
+   polynomial target and its derivative are positive and it is convex (the situation to the
+   right of the largest root of a real-rooted polynomial with positive leading coefficient),
+   every body of the model's loop moves the iterate to the left without crossing r.
+   Missing: that the relative stopping rule fires within the budget and that the returned
+   iterate is within degree*tol of r; both are checked by the oracle of the correspondence
+   check only. *)
+Lemma c07_monotone_partial : forall (p : spoly R) r tol cap (s s' : nstate R) b,
+  let g := eval_simple p in let g1 := eval_simple (sd p) in let g2 := eval_simple (sd (sd p)) in
+  g r = 0 -> (forall t, r < t -> 0 < g t /\ 0 < g1 t) -> (forall t, r <= t -> 0 <= g2 t) ->
+  r < ns_x s ->
+  nr_body (s_eval_univariate p) (s_eval_univariate (sd p)) tol cap s = Ok (s', b) ->
+  r <= ns_x s' < ns_x s.
+Proof.
+  intros p r tol cap s s' b g g1 g2 Hr Hpos Hconv Hx Hb.
+  apply nr_body_R in Hb. destruct Hb as (v & d & vx & Hv & Hd & _ & Hx' & _).
+  unfold s_eval_univariate in Hv, Hd. injection Hv as <-. injection Hd as <-.
+  rewrite Hx'. apply (newton_step_monotone g g1 g2); try assumption;
+    intro t; apply eval_simple_is_derive.
+Qed.
+
+(* ------------------------------------------------------------------------- *)
+(* witnesses                                                                  *)
+(* ------------------------------------------------------------------------- *)
+Definition p2x : spoly R := {| s_coefs := [0; 2]; s_var := Some 120%N |}.
+
+Lemma p2x_eval x : eval_simple p2x x = 2 * x.
+Proof. rewrite eval_simple_R. cbn. ring. Qed.
+Lemma p2x_deval x : eval_simple (sd p2x) x = 2.
+Proof. rewrite eval_simple_R. cbn. ring. Qed.
+
+(* 2x from 3: the first iterate is the root 0 and is returned (repair b6ae3a9) *)
+Lemma c07_example_zero_root : s_nrm p2x 3 100 (1 / 10000) false = Ok 0.
+Proof.
+  unfold s_nrm, nrm_poly. cbn [target bind s_derivate_univariate].
+  destruct (c07_zero_root (s_eval_univariate p2x) (s_eval_univariate (simple_derivative p2x)) 3 100 (1 / 10000) 1 0)
+    as (j & xj & Hj & Hn & Hr); try lra; try lia.
+  - cbn [newton_from]. unfold s_eval_univariate. cbn [bind]. fold (sd p2x).
+    rewrite p2x_eval, p2x_deval. f_equal. field.
+  - unfold s_eval_univariate. rewrite p2x_eval. f_equal. ring.
+  - assert (j = 1)%nat by lia. subst j.
+    cbn [newton_from] in Hn. unfold s_eval_univariate in Hn. cbn [bind] in Hn. fold (sd p2x) in Hn.
+    rewrite p2x_eval, p2x_deval in Hn. injection Hn as Hn.
+    rewrite Hr. f_equal. rewrite <- Hn. field.
+Qed.
+
+(* x^2 - 1 to the right of its largest root 1: the hypotheses of c07_monotone_partial hold *)
+Definition px2m1 : spoly R := {| s_coefs := [-1; 0; 1]; s_var := Some 120%N |}.
+Lemma px2m1_eval x : eval_simple px2m1 x = x * x - 1.
+Proof. rewrite eval_simple_R. cbn. ring. Qed.
+Lemma px2m1_d1 x : eval_simple (sd px2m1) x = 2 * x.
+Proof. rewrite eval_simple_R. cbn. ring. Qed.
+Lemma px2m1_d2 x : eval_simple (sd (sd px2m1)) x = 2.
+Proof. rewrite eval_simple_R. cbn. ring. Qed.
+
+Lemma c07_example_monotone_hyps :
+  eval_simple px2m1 1 = 0 /\
+  (forall t, 1 < t -> 0 < eval_simple px2m1 t /\ 0 < eval_simple (sd px2m1) t) /\
+  (forall t, 1 <= t -> 0 <= eval_simple (sd (sd px2m1)) t).
+Proof.
+  split; [rewrite px2m1_eval; ring|]. split.
+  - intros t Ht. rewrite px2m1_eval, px2m1_d1. split; nra.
+  - intros t _. rewrite px2m1_d2. lra.
 Qed.
